@@ -152,7 +152,7 @@ def _gen_ops(rng, n_ops, n_prim, world_has_nac, fault_mode, tier):
             op.update(compact=rng.random() < 0.5)
             st["fc"] = "compact" if op["compact"] else "full"
         elif kind == "symmetrize":
-            op.update(level=rng.choice([1, 1, 2, 3]))
+            op.update(level=rng.choice([1, 1, 2, 3]), show_drift=rng.random() < 0.5)
         elif kind == "cutoff":
             op.update(radius=rng.choice([2.5, 3.5, 4.5, 6.0]))
         elif kind == "set_nac":
@@ -206,6 +206,12 @@ def _gen_ops(rng, n_ops, n_prim, world_has_nac, fault_mode, tier):
                       direction=rng.choice([None, [1, 0, 0], [0.2, 0.5, -0.3]]))
             if planned.get(i) == "disp_cells":
                 op["kind"] = "disp_cells"
+            if isinstance(planned.get(i), dict):  # follow-up of a query with an approach direction: the same, without the direction
+                op = dict(planned[i], direction=None)
+            elif op["direction"] is not None and op["kind"] in ("qpoints", "band", "mesh", "gv_at_q") and i + 1 < n_ops and seq[i + 1] is None and rng.random() < 0.5:
+                op["gv"] = True
+                seq[i + 1] = "query"
+                planned[i + 1] = dict(op)
             if i in repeat and repeat[i] < len(ops) and ops[repeat[i]]["op"] == "query":
                 op = dict(ops[repeat[i]])
         elif kind == "scribble_out":
@@ -574,7 +580,7 @@ def execute(spec):
                     if t.fc.shape[0] != want_shape0:
                         V("set-get-mismatch", "produce_force_constants.shape")
                 elif kind == "symmetrize":
-                    ph.symmetrize_force_constants(level=op["level"])
+                    ph.symmetrize_force_constants(level=op["level"], show_drift=op.get("show_drift", True))
                     t.fc = np.array(ph.force_constants, copy=True)
                 elif kind == "symmetrize_sg":
                     ph.symmetrize_force_constants_by_space_group()
